@@ -27,5 +27,6 @@ def plan(exp, tier):
             p.kani = specs
     p.not_decided += ['the 12 cmp*/partial_cmp* functions and Ord-based min/max/reduce_min/reduce_max (AsRef / Ord on the exact scalar are outside the Verus units): Kani harnesses in /verif/kani/c02 when present',
                       'from_slice / FromIterator (loop over an iterator) and From<[T;N]> (unsafe): Kani under C18',
-                      'apply2 / apply3 / zip, Sum / Product impls, is_any_negative / are_all_positive, sqrt/rsqrt/recip/ceil/floor/round']
+                      'zip, Sum / Product impls, is_any_negative / are_all_positive: Kani (c02_sum_product_iter_vec3, c02_cmp_family_*); numeric reduce_and / reduce_or (one concrete impl per primitive type): Kani c02_bool_reductions_*',
+                      'sqrt/ceil/floor/round lifts are proved per element against uninterpreted real functions (nothing is claimed about their rounding)']
     return p
